@@ -22,6 +22,11 @@ CANCEL = [wl("diamond"), wl("multitask"), wl("fail_branch"), wl("synthetic"), wl
 
 def jobs(tier, seed):
     js = []
+    bound = 2 if tier == "quick" else 3
+    shards = 4 if bound == 2 else 16
+    for k in range(shards):
+        js.append({"label": f"e3 concurrency slot: StartWorkflow(W2)||CompleteWorkflow(W1)+StartWaitingWorkflows|preemptions<={bound}|shard{k}/{shards}",
+                   "slots": True, "bound": bound, "shard": [k, shards]})
     if tier == "quick":
         for spec in SMALL:
             js.append({"label": f"{spec[0]}{spec[1]}|noack1", "wl": spec, "budget": {"noack": 1}})
@@ -49,6 +54,10 @@ def build(job):
 
 
 def run_job(job):
+    if job.get("slots"):
+        from checks.c05_slots import slots_job
+
+        return slots_job(job)
     ex = build(job).run()
     res = result_from(ex, "e1")
     res["job_spec"] = job
